@@ -8,8 +8,9 @@ Reads (live objects, nothing is parsed from source text):
     `_fields` and `__new__.__defaults__`; members of EPRType, RequestType,
     ReturnType, RandomBasis, Basis, BellState, TimeUnit; members of
     qlink_interface.RandomBasis / BellState; response_from_qlink_1_0 evaluated on a
-    ResCreateAndKeep / ResMeasureDirectly per qlink Bell state (what value ends up in
-    the results array and how the SDK decodes it);
+    ResCreateAndKeep / ResMeasureDirectly per qlink Bell state, given as enum member AND
+    as its plain integer value (what value ends up in the results array and how the SDK
+    decodes it);
   * netqasm.backend.network_stack CREATE_FIELDS / OK_FIELDS_K / OK_FIELDS_M and the
     OK_FIELDS name the executor module uses for its slice arithmetic;
   * by probing the real functions with an index-echo array: which array index every
@@ -171,17 +172,23 @@ def tables(repo):
     # ---- stride constants
     t["CREATE_FIELDS"], t["OK_FIELDS_K"], t["OK_FIELDS_M"] = ns.CREATE_FIELDS, ns.OK_FIELDS_K, ns.OK_FIELDS_M
     t["EXEC_OK_FIELDS"] = ex_mod.OK_FIELDS
-    # ---- qlink 1.0 Bell state through response_from_qlink_1_0 and the array encoding
+    # ---- qlink 1.0 Bell state through the real conversion (response_from_qlink_1_0) and the array
+    # encoding, on ALL inputs of both legitimate kinds: the enum member and its plain integer value
+    # (qlink_interface.ResCreate.bell_state is declared int)
     conv = []
     for name, m in ql.BellState.__members__.items():
-        for mk in (lambda b: ql.ResCreateAndKeep(bell_state=b), lambda b: ql.ResMeasureDirectly(bell_state=b)):
-            r = qc.response_from_qlink_1_0(mk(m))
-            stored = r.bell_state.value if isinstance(r.bell_state, enum.Enum) else r.bell_state
-            try:
-                back = qc.BellState(stored).name
-            except ValueError:
-                back = "INVALID"
-            conv.append((type(r).__name__, name, back))
+        for kind, inp in (("enum", m), ("int", m.value)):
+            if kind == "int" and (isinstance(inp, bool) or type(inp) is not int):
+                raise GenError(f"qlink BellState.{name}.value = {inp!r}")
+            for mk in (lambda b: ql.ResCreateAndKeep(bell_state=b), lambda b: ql.ResMeasureDirectly(bell_state=b)):
+                try:
+                    r = qc.response_from_qlink_1_0(mk(inp))
+                    stored = r.bell_state.value if isinstance(r.bell_state, enum.Enum) else r.bell_state
+                    back = qc.BellState(stored).name
+                    cls = type(r).__name__
+                except Exception as e:  # noqa  (a conversion that raises is data for the obligation, not a shape problem)
+                    back, cls = "RAISED_" + type(e).__name__, type(mk(inp)).__name__
+                conv.append((cls + "/" + kind, name, back))
     t["bell_conv"] = conv
     # ---- handle index probes
     from sdk_pipeline import Pipeline
